@@ -319,7 +319,25 @@ def r01_6(ctx, rr):
                                 if len(y) == 3 and y[0] == "call" and y[1] == "int::div_ceil" and isinstance(y[2], tuple) and len(y[2]) == 2 and y[2][0] == ("call", "BitLength::len", (bits,)) and (y[2][1] == ("int", 64) or (y[2][1][0] == "def" and y[2][1][1].endswith("BITS"))):
                                     nw.add(y)
                 ok = any(K.entails(atom_le(x, w, True)) for w in nw)
+                if not ok and x[0] == "op" and x[1] == "+":
+                    # x = a + b with b < num_words - a (a guard hoisted out of the inner loop as `min(num_words - i, ..)`)
+                    K2 = K.copy()
+                    for a_ in list(K.atoms):
+                        if a_[0] == "le" and a_[2][0] == "op" and a_[2][1] == "min":
+                            K2.add([("le", a_[1], a_[2][2], a_[3]), ("le", a_[1], a_[2][3], a_[3])])
+                    for a, bb in ((x[2], x[3]), (x[3], x[2])):
+                        if any(K2.entails(atom_le(bb, mk_op("-", w, a), True)) for w in nw):
+                            ok = True
                 reads.append((n, ok, K.show()[:6]))
+            # `(lo..hi).map(closure)` with the closure reading the backend at its parameter: the reads are at lo..hi
+            if n.get("k") == "MethodCall" and n["name"] == "map" and W.debug_depth == 0 and n.get("args") and n["args"][0].get("k") == "Path" and n["args"][0].get("id") in W.T.closures and range_of(F, n["recv"]) is not None:
+                c = W.T.closures[n["args"][0]["id"]]
+                ps = c.get("params", [])
+                if len(ps) == 1 and ps[0].get("k") == "PBind" and any(y.get("k") == "Index" and y["i"].get("k") == "Path" and y["i"].get("id") == ps[0]["id"] and W.T.term(y["e"]) == bits for y in walk(c["body"])):
+                    lo, hi, incl = range_of(F, n["recv"])
+                    ht = W.expand(W.T.term(hi)) if hi is not None else None
+                    okm = ht is not None and not incl and ht[0] == "call" and ht[1] == "int::div_ceil" and len(ht[2]) == 2 and ht[2][0] == ("call", "BitLength::len", (bits,)) and (ht[2][1] == ("int", 64) or (ht[2][1][0] == "def" and ht[2][1][1].endswith("BITS")))
+                    reads.append((n, okm, K.show()[:6]))
         Walker(F, b, on_node=on_node).run()
         if len(reads) < 1:
             raise AnchorMissing("%s: expected at least one read of the backend" % b.key)
